@@ -1,4 +1,5 @@
 """C01 -- lens prescription stays consistent under any history of edits."""
+import math
 from pyvc.vc import contract
 from .common import *  # noqa
 from .lens import arbitrary_lens, zs, stops, SG, SF, OP
@@ -488,3 +489,31 @@ def _catalogue_media(ct, tier, seed):
 
 contract('C01.runtime.catalogue_media', [SF + ':SurfaceFactory._configure_material', SF + ':SurfaceFactory.create_surface', OP + ':Optic.add_surface'],
          ['C01'], custom=_catalogue_media)(lambda c: None)
+
+
+def _flat_special_contract(special):
+    @contract('C01.set_radius.flat_%s' % special, [OP + ':Optic.set_radius', OP + ':Optic.set_asphere_coeff'], ['C01'], max_paths=32)
+    def fs(c):
+        """a surface of another type left at its default infinite base radius (a flat-based asphere / polynomial surface): setting its
+        radius changes the radius only -- the surface keeps its type, conic and coefficients, and later coefficient edits work"""
+        lens, v = arbitrary_lens(c, 4, stop=1, special={2: special})
+        sg = lens.surface_group
+        g = sg.surfaces[2].geometry
+        g.radius = math.inf
+        cls0 = type(g)
+        before = c.snapshot(lens=sg)
+        val = c.real('value', 10.0, 90.0, positive=True)
+        lens.set_radius(val, 2)
+        g2 = sg.surfaces[2].geometry
+        c.ensure('C01.set_radius.surface_keeps_its_type', type(g2) is cls0, note=type(g2).__name__)
+        c.ensure_eq('C01.set_radius.readback', c.val(sg.radii[2]), val)
+        c.ensure_frame('C01.set_radius.frame', before, c.snapshot(lens=sg), ['lens.surfaces[2].geometry.radius'])
+        if special == 'even_asphere':
+            nv = c.real('new_coefficient', -1e-4, 1e-4)
+            lens.set_asphere_coeff(nv, 2, 1)
+            c.ensure_eq('C01.set_asphere_coeff.readback', c.val(sg.surfaces[2].geometry.c[1]), nv)
+    return fs
+
+
+for _sp in ('even_asphere', 'polynomial', 'chebyshev'):
+    _flat_special_contract(_sp)
